@@ -37,6 +37,27 @@ AGGS = ["stddev", "quantile", "min", "max", "covariance", "corrcoef"]
 
 @st.composite
 def cases(draw, tier):
+    if draw(st.integers(0, 24)) == 0:
+        # hundreds / thousands of rows, many categories, up to ten fact columns (stored as a recipe)
+        spec = draw(Q.large_specs(["stddev", "quantile", "min", "max", "covariance"]))
+        agg = spec["agg"]
+        f = spec["fact"]
+        f["dtype"] = "float"
+        if agg in ("min", "max"):
+            f["K"] = None
+            spec["weights"] = None
+        elif agg == "covariance":
+            f["K"] = f["K"] or 2
+        if spec["weights"] is not None and spec["weights"]["dtype"] == "int":
+            spec["weights"] = None
+        if spec["weights"] is not None:
+            spec["weights"]["zero_ok"] = agg == "stddev"  # as in the small cases (see ASSUMPTIONS)
+        spec["prob"] = draw(st.sampled_from([0.0, 1.0, 0.5, 0.25, 0.9]))
+        spec["ignore"] = draw(st.booleans())
+        spec["xdtypes"] = ["int64"] * len(spec["dims"])
+        spec["args"] = draw(st.sampled_from(["fresh", "shared"]))
+        spec["prior_weights"] = None
+        return spec
     bigcase = draw(st.integers(0, 7)) == 0
     if bigcase:
         # boundary extents: category ids at the top of / beyond the narrow coordinate dtypes the array cube
@@ -191,6 +212,9 @@ def call(case, dense, shape_arg, rma, weights_scale=None, shared=None):
 def check(case, rec):
     import numpy
 
+    if case.get("recipe"):
+        rec.note("large recipe case (N=%d)" % case["N"])
+    case = Q.expand(case)
     dense = Q.dense_dims(case)
     N = case["N"]
     nd = len(dense)
